@@ -154,7 +154,7 @@ func C18(c *run.Check) {
 		}
 	}
 	shapes := c01Shapes(n)
-	decos := []int{adoc.D0, adoc.D1, adoc.D2}
+	decos := []int{adoc.D0, adoc.D1, adoc.D2, adoc.D5}
 	type job struct {
 		f    []*adoc.Tm
 		deco int
@@ -166,7 +166,7 @@ func C18(c *run.Check) {
 		}
 	}
 	gen := func(i int) *adoc.Doc { return adoc.Instantiate(jobs[i].f, jobs[i].deco) }
-	c.Rule = fmt.Sprintf("forests with <=%d nodes x D0-D2: (1) %d relative expressions (all single steps, position()/last(), reverse axes leaving the subtree) executed with EVERY node of every kind as starting cursor and compared with the reference at context (n,1,1); (2) for %d prefixes P x %d suffixes R: Exec(root,'P/R') against the identity-union of Exec(n,R) over n in Exec(root,P) - implementation against itself; (3) P/f() against f(P) for %d context-dependent builtins. non-trivial = distinct (expression, context kind, non-empty result) resp. distinct (P,R) with non-empty result", n, len(rel), len(c18Prefixes), len(c18Suffixes), len(c18Funcs))
+	c.Rule = fmt.Sprintf("forests with <=%d nodes x D0-D2, D5: (1) %d relative expressions (all single steps, position()/last(), reverse axes leaving the subtree) executed with EVERY node of every kind as starting cursor and compared with the reference at context (n,1,1); (2) for %d prefixes P x %d suffixes R: Exec(root,'P/R') against the identity-union of Exec(n,R) over n in Exec(root,P) - implementation against itself; (3) P/f() against f(P) for %d context-dependent builtins. non-trivial = distinct (expression, context kind, non-empty result) resp. distinct (P,R) with non-empty result", n, len(rel), len(c18Prefixes), len(c18Suffixes), len(c18Funcs))
 	r := newXRunner(c, "C18", c01Env)
 	r.runGrid(len(jobs), gen, rel, nil)
 
